@@ -10,10 +10,12 @@ ERR = 'gse_encap::EncapError'
 def shared_args(src, names_src, body_dst):
     """arg_values for run_root of the sibling: reuse the argument values (and their objects) of `src`"""
     av = {}
-    for i in range(1, body_dst.arg_count + 1):
-        nm = body_dst.local_names.get(i)
-        if nm in names_src:
-            val = names_src[nm]
+    for nm, val in names_src.items():
+        try:
+            i = param_index(body_dst, nm)
+        except Tooling:
+            continue
+        if True:
 
             def mk(I, w, _v=val):
                 for root, v in src.w0.mem.items():
@@ -28,7 +30,12 @@ def shared_args(src, names_src, body_dst):
 
 def analyse_sibling(ck, key, src, tag):
     body = ck.facts.body(key)
-    names = {src.body.local_names.get(i): src.args[i - 1] for i in range(1, src.body.arg_count + 1)}
+    names = {}
+    for role in ('pdu', 'metadata', 'context', 'buffer'):
+        try:
+            names[role] = src.args[param_index(src.body, role) - 1]
+        except Tooling:
+            pass
     I = Interp(ck.facts, {'kslots': 24})
 
     class A:
@@ -48,11 +55,9 @@ def variants(v):
 
 
 def label_of(a, w, f, argname='metadata'):
-    for i in range(1, a.body.arg_count + 1):
-        if a.body.local_names.get(i) == argname:
-            v = w.mem.get(('R', i))
-            if v is not None and v[0] == 'agg':
-                return v[1][field_index(f, 'gse_encap::EncapMetadata', 'label')]
+    v = w.mem.get(('R', param_index(a.body, argname)))
+    if v is not None and v[0] == 'agg':
+        return v[1][field_index(f, 'gse_encap::EncapMetadata', 'label')]
     return None
 
 
@@ -153,14 +158,13 @@ def run(ck):
     pa_all = []
     for lv in f.adts['label::Label']['variants']:
         def fix_label(I, w, args, body, _v=lv['idx']):
-            for i in range(1, body.arg_count + 1):
-                if body.local_names.get(i) == 'metadata':
-                    md = args[i - 1]
-                    lab = md[1][i_label]
-                    one = ('enum', tuple((v, fs) for v, fs in lab[1] if v == _v))
-                    fl = list(md[1])
-                    fl[i_label] = one
-                    args[i - 1] = ('agg', tuple(fl))
+            i = param_index(body, 'metadata')
+            md = args[i - 1]
+            lab = md[1][i_label]
+            one = ('enum', tuple((v, fs) for v, fs in lab[1] if v == _v))
+            fl = list(md[1])
+            fl[i_label] = one
+            args[i - 1] = ('agg', tuple(fl))
         wa = analyse_writer(ck, ENC + 'encap', tag=f"c18-{lv['name']}", extra=extra, premise=fix_label)
         pa = analyse_sibling(ck, 'gse_encap::encap_preview', wa, f"c18-{lv['name']}")
         pa_all.append(pa)
